@@ -11,6 +11,7 @@
 #include "thr/vthr.hpp"
 #endif
 #include <sstream>
+#include <cstring>
 #include <unistd.h>
 #include <sys/wait.h>
 #include <sys/resource.h>
